@@ -27,11 +27,13 @@ package chainexchange
 //@   harness harness/chainexchange_wanted_test.go
 //@   modifies auto
 //@   maypanic
+//@   at Peek 1
+//@     before[prefixes_of_the_admitted_chain] allPrefixes == res(AllPrefixes, 1) && argOf(AllPrefixes, 1, 0) == cmsg.Chain
 //@   at AllPrefixes 1
 //@     before[caches_of_the_messages_instance] argOf(getChainsWantedAt, 1, 2) == cmsg.Instance && argOf(getChainsDiscoveredAt, 1, 2) == cmsg.Instance
 //@          && wanted == res(getChainsWantedAt, 1) && discovered == res(getChainsDiscoveredAt, 1)
 //@   at Peek 1
-//@     before[wanted_keys_are_looked_up_in_the_wanted_cache] arg(0) == res(getChainsWantedAt, 1) && arg(1) == res(Key, 1) && prefix == allPrefixes[i]
+//@     before[wanted_keys_are_looked_up_in_the_wanted_cache] arg(0) == res(getChainsWantedAt, 1) && arg(1) == res(Key, 1) && argOf(Key, 1, 0) == prefix && prefix == allPrefixes[i]
 //@   at ContainsOrAdd 1
 //@     before[unsolicited_prefix_goes_to_the_discovered_cache_under_its_key] arg(0) == res(getChainsDiscoveredAt, 1) && arg(1) == res(Key, 1) && arg(2).chain == prefix && !res(Peek, 1, 1)
 //@   at Add 2
@@ -48,7 +50,7 @@ package chainexchange
 //@   modifies auto
 //@   maypanic
 //@   at Peek 1
-//@     before[own_chains_go_to_the_wanted_cache] arg(0) == res(getChainsWantedAt, 1) && arg(1) == res(Key, 1) && prefix == allPrefixes[i] && argOf(getChainsWantedAt, 1, 2) == cmsg.Instance
+//@     before[own_chains_go_to_the_wanted_cache] arg(0) == res(getChainsWantedAt, 1) && arg(1) == res(Key, 1) && argOf(Key, 1, 0) == prefix && prefix == allPrefixes[i] && argOf(getChainsWantedAt, 1, 2) == cmsg.Instance
 //@   at Add 1
 //@     before[each_prefix_is_stored_under_its_key] arg(0) == res(getChainsWantedAt, 1) && arg(1) == res(Key, 1) && arg(2).chain == prefix
 //@   at loopback 1
